@@ -1,2 +1,3 @@
 pub mod queue;
 pub mod uow;
+pub mod agg;
